@@ -231,6 +231,9 @@ def c07_programs(rng, n):
     # the initiator dropped its callback channel ("sendonly" on the worker), then the remote code fails: the error still travels
     out.append(prog([("u1", [("remote_exec", "c", 1), ("setcallback", "c", True), ("drop", "c"), ("open_gate", "go"), ("sleep", 5), ("hasreceiver",)])],
                     {1: [("send", "channel", 201), ("wait_gate", "go"), ("sleep", 1), ("raise",)]}))
+    # a callback whose endmarker is None (what RSync and MultiChannel queues use): the end of a failing conversation is still delivered
+    out.append(prog([("u1", [("remote_exec", "c", 1), ("setcallback", "c", "none"), ("waitclose", "c"), ("sleep", 1), ("hasreceiver",)])],
+                    {1: [("send", "channel", 201), ("raise",)]}))
     # the failing initiator-side channel was dropped
     out.append(prog([("u1", [("remote_exec", "c", 1), ("setcallback", "c", False, 201), ("drop", "c"), ("remote_exec", "e", 2), ("receive_all", "e"), ("hasreceiver",)])],
                     {1: [("send", "channel", 201), ("send", "channel", 202)], 2: [("send", "channel", 221)]}))
@@ -291,6 +294,9 @@ def c10_programs(rng, n):
                     {1: [("send", "channel", 201), ("wait_gate", "go"), ("raise",)], 2: [("send", "channel", 221)]}))
     out.append(prog([("u1", [("remote_exec", "c", 1), ("setcallback", "c", True), ("drop", "c"), ("remote_exec", "e", 2), ("receive_all", "e"), ("sleep", 3)])],
                     {1: [("send", "channel", 201), ("raise",)], 2: [("send", "channel", 221)]}))
+    # the gateway goes away (the channel ends "sendonly"), the channel is then closed locally, only then a callback is set: one endmarker
+    out.append(prog([("u1", [("remote_exec", "c", 1), ("receive", "c"), ("exit",), ("join",), ("close", "c"), ("setcallback", "c", True), ("sleep", 1)])],
+                    {1: [("send", "channel", 201), ("send", "channel", 202), ("receive", "channel")]}))
     # Channel.reconfigure() from another thread while the callback channel is being closed by the peer: still exactly one endmarker
     out.append(prog([("u1", [("remote_exec", "c", 1), ("setcallback", "c", True), ("open_gate", "cb"), ("waitclose", "c"), ("exit",), ("join",)]),
                      ("u2", [("wait_gate", "cb"), ("reconfigure", "c", False, True), ("reconfigure", "c", True, False)])],
@@ -428,4 +434,7 @@ def c04_programs():
     out.append(prog([("u1", [("remote_exec", "c", 1), ("receive_all", "c")] + post),
                      ("u2", [("newchannel", "d"), ("receive", "d"), ("newchannel", "e"), ("receive", "e")])],
                     {1: [("send", "channel", 201), ("send", "channel", 202), ("receive", "channel")], 9: []}))
+    # a callback registered only after the connection was lost still gets the queued items and its endmarker
+    out.append(prog([("u1", [("remote_exec", "c", 1), ("remote_exec", "k", 2), ("receive_all", "c"), ("join",), ("setcallback", "k", True), ("hasreceiver",)])],
+                    {1: [("send", "channel", 201), ("receive", "channel")], 2: [("send", "channel", 211), ("send", "channel", 212), ("receive", "channel")]}))
     return out
